@@ -26,7 +26,7 @@ ASSUMPTIONS = [
     "operators (`each once`) is checked for them as for any other span set, construction-time de-duplication is not",
     "a span set is immutable: several threads querying one set (first queries overlapping) are ordinary use",
 ]
-SHARD_TIMEOUT = {"quick": 900, "thorough": 3600}
+SHARD_TIMEOUT = {"quick": 300, "thorough": 3600}
 NSHARDS = 16
 
 REL_NAMES = ["exact", "partof", "includes", "overlaps"]
